@@ -205,6 +205,10 @@ func (t *scStringType) IsAssignable(o px.Type, g px.Guard) bool {
 	case *scStringType:
 		return t.size.IsAssignable(o.size, g)
 	case *EnumType:
+		if len(o.values) == 0 {
+			// an Enum without values accepts every string
+			return false
+		}
 		for _, str := range o.values {
 			if !t.size.IsInstance3(utf8.RuneCountInString(str)) {
 				return false
